@@ -4,7 +4,9 @@ import os, sys, json
 HERE = os.path.dirname(os.path.abspath(__file__))
 sys.path.insert(0, HERE)
 from extract import Out, extract, parse_contracts, LostAnchor, Clause
-from plan import RUNTIME_PLAN, CODEGEN_PLAN
+from plan import RUNTIME_PLAN, CODEGEN_PLAN, G_RUNTIME_EXTRA
+from extract import extract_generated
+import subprocess, shutil
 
 UNITS = {
     'runtime': {'plan': RUNTIME_PLAN, 'contracts': 'runtime.contracts', 'speclib': 'speclib.rs',
@@ -48,6 +50,44 @@ def generate(repo, outdir, unit='runtime', contracts_dir=None, canary=None, forc
              'unreachable': out.unreachable, 'speclib_lines': [speclib_lo, speclib_hi], 'theorems_from': thm_lo,
              'contract_keys': [list(k) for k in contracts]}
     json.dump(index, open(os.path.join(outdir, unit + '_index.json'), 'w'), indent=1)
+    return path, index
+
+def generate_g(repo, outdir, schema, gen_rs, contracts_dir=None, canary=None):
+    """layer G unit: runtime unit (functions + contracts, no theorems) + the rustfmt-ed generated code of one schema"""
+    contracts_dir = contracts_dir or os.path.join(HERE, '..', 'contracts')
+    contracts = parse_contracts(os.path.join(contracts_dir, 'runtime.contracts'))
+    gcontracts = parse_contracts(os.path.join(contracts_dir, 'g_%s.contracts' % schema))
+    if canary:
+        key = tuple(canary)
+        if key not in gcontracts: raise LostAnchor('canary target %r missing' % (key,))
+        gcontracts[key].clauses.append(Clause('ensures', 'CANARY', [], 'false'))
+    os.makedirs(outdir, exist_ok=True)
+    fmt = os.path.join(outdir, 'g_%s_generated.rs' % schema)
+    shutil.copy(gen_rs, fmt)
+    p = subprocess.run(['rustfmt', '--edition', '2021', fmt], capture_output=True, text=True)
+    if p.returncode != 0: raise LostAnchor('rustfmt failed on the generated code of %s: %s' % (schema, p.stderr[-300:]))
+    import extract as _ex
+    out = Out()
+    out.broadcast_stmt = 'broadcast use lib::group_lib; broadcast use glib::axiom_iter_items_vec;'
+    out.emit(open(os.path.join(contracts_dir, 'prelude.rs')).read().rstrip('\n').replace('#![feature(pattern)]', '#![feature(pattern)]\n#![feature(allocator_api)]'))
+    out.emit('verus! {')
+    out.emit('')
+    out.emit(open(os.path.join(contracts_dir, 'speclib.rs')).read().rstrip('\n'))
+    out.emit('')
+    extract(repo, RUNTIME_PLAN + G_RUNTIME_EXTRA, contracts, out)
+    runtime_clause_count = len(out.clause_index)
+    out.emit(open(os.path.join(contracts_dir, 'g_common_speclib.rs')).read().rstrip('\n'))
+    out.emit(open(os.path.join(contracts_dir, 'g_%s_speclib.rs' % schema)).read().rstrip('\n'))
+    out.emit('')
+    extract_generated(open(fmt).read(), schema, gcontracts, out)
+    out.emit('} // verus!')
+    out.emit('fn main() {}')
+    path = os.path.join(outdir, 'g_%s_verus.rs' % schema)
+    open(path, 'w').write('\n'.join(out.lines) + '\n')
+    index = {'unit': 'g_' + schema, 'clauses': out.clause_index[runtime_clause_count:], 'fns': out.fn_index, 'log': out.log,
+             'unreachable': out.unreachable, 'speclib_lines': [0, 0], 'theorems_from': 10 ** 9,
+             'contract_keys': [list(k) for k in gcontracts]}
+    json.dump(index, open(os.path.join(outdir, 'g_%s_index.json' % schema), 'w'), indent=1)
     return path, index
 
 if __name__ == '__main__':
